@@ -26,11 +26,24 @@ type XScript struct {
 	Table   []Entry `json:"table"`          // what the providers return
 	Fields  []Field `json:"fields"`         // first source
 	Over    []Field `json:"over,omitempty"` // second source (overrides whole fields)
+	// Nest: the fields are served a second and third time under "n1" and under
+	// "n2"."in", and unmarshalled through Conf.Sub at one and two levels.
+	Nest bool `json:"nest,omitempty"`
+	// Rounds: history on ONE Resolver. After the first Resolve, each round replaces
+	// some provider rows, optionally fires a watcher the provider was given, and
+	// resolves again; every round must reflect the CURRENT table.
+	Rounds []Round `json:"rounds,omitempty"`
 	// Probe names the listed finding this script re-observes ("" in the main
 	// pass, where those shapes are excluded by construction).
 	Probe string `json:"probe,omitempty"`
 	// Text is the rendering of fields and table, for the reader only.
 	Text map[string]string `json:"text,omitempty"`
+}
+
+// Round is one step of a history.
+type Round struct {
+	Changes []Entry `json:"changes"` // rows replaced (existing keys)
+	Fire    bool    `json:"fire"`    // call a WatcherFunc of a still-open retrieval and wait for Resolver.Watch()
 }
 
 // Sub and Target are what the resolved configuration is unmarshalled into.
@@ -52,6 +65,15 @@ type Target struct {
 	L   []any             `mapstructure:"l"`
 	LS  []string          `mapstructure:"ls"`
 	Sub Sub               `mapstructure:"sub"`
+}
+
+// Full is the target of the direct Unmarshal of a nested script.
+type Full struct {
+	Target `mapstructure:",squash"`
+	N1     Target `mapstructure:"n1"`
+	N2     struct {
+		In Target `mapstructure:"in"`
+	} `mapstructure:"n2"`
 }
 
 // fieldKind: str int bool float mapany mapstr listany liststr sub
@@ -96,6 +118,14 @@ func (s *XScript) describe() map[string]string {
 	for _, e := range s.Table {
 		m["table "+e.Key] = renderVal(e.Val)
 	}
+	for i, r := range s.Rounds {
+		for _, e := range r.Changes {
+			m[fmt.Sprintf("round %d (fire=%v) table %s", i+1, r.Fire, e.Key)] = renderVal(e.Val)
+		}
+	}
+	if s.Nest {
+		m["nest"] = "fields repeated under n1 and n2.in"
+	}
 	return m
 }
 
@@ -131,6 +161,13 @@ func (s *XScript) bijective() bool {
 			return false
 		}
 	}
+	for _, r := range s.Rounds {
+		for _, e := range r.Changes {
+			if !ok(e.Val) || !bijective(entrySeq(e.Val)) {
+				return false
+			}
+		}
+	}
 	return true
 }
 
@@ -145,13 +182,32 @@ type expect struct {
 	res   Res
 }
 
-func (s *XScript) world() *world {
+func (s *XScript) world() *world { return s.worldFor(s.Table) }
+
+// tableAt is the provider table after the changes of rounds 1..r.
+func (s *XScript) tableAt(r int) []Entry {
+	out := append([]Entry(nil), s.Table...)
+	idx := map[string]int{}
+	for i, e := range out {
+		idx[e.Key] = i
+	}
+	for k := 0; k < r && k < len(s.Rounds); k++ {
+		for _, c := range s.Rounds[k].Changes {
+			if i, ok := idx[c.Key]; ok {
+				out[i] = c
+			}
+		}
+	}
+	return out
+}
+
+func (s *XScript) worldFor(table []Entry) *world {
 	w := &world{def: s.Default, schemes: map[string]bool{}, table: map[string]*Entry{}, cls: map[string]int{}}
 	for _, sc := range allSchemes {
 		w.schemes[sc] = true
 	}
-	for i := range s.Table {
-		e := &s.Table[i]
+	for i := range table {
+		e := &table[i]
 		if _, dup := w.table[e.Key]; dup {
 			w.discard = "duplicate-table-key"
 		}
@@ -182,6 +238,15 @@ func (s *XScript) effective() []Field {
 	return out
 }
 
+// effectiveMap is the configuration after both sources, as one map.
+func (s *XScript) effectiveMap() map[string]any {
+	m := map[string]any{}
+	for _, f := range s.effective() {
+		m[f.Name] = goVal(f.Val)
+	}
+	return m
+}
+
 func (s *XScript) sourceMaps() []map[string]any {
 	a := map[string]any{}
 	seen := map[string]bool{}
@@ -192,6 +257,10 @@ func (s *XScript) sourceMaps() []map[string]any {
 		}
 	}
 	out := []map[string]any{a}
+	if s.Nest {
+		a["n1"] = deepCopy(s.effectiveMap())
+		a["n2"] = map[string]any{"in": deepCopy(s.effectiveMap())}
+	}
 	if len(s.Over) > 0 {
 		b := map[string]any{}
 		for _, f := range s.Over {
@@ -200,275 +269,6 @@ func (s *XScript) sourceMaps() []map[string]any {
 		out = append(out, b)
 	}
 	return out
-}
-
-// execute runs the real resolver on s.
-func (s *XScript) execute() (o outcome, tgt Target, uerr error, upanic any) {
-	srcs := s.sourceMaps()
-	table := map[string]string{}
-	for _, e := range s.Table {
-		table[e.Key] = renderVal(e.Val)
-	}
-	facs := []confmap.ProviderFactory{factory("src", func(uri string) (*confmap.Retrieved, error) {
-		var i int
-		if _, err := fmt.Sscanf(uri, "src:%d", &i); err != nil || i >= len(srcs) {
-			return nil, fmt.Errorf("no source %q", uri)
-		}
-		return confmap.NewRetrieved(srcs[i])
-	})}
-	for _, sc := range allSchemes {
-		facs = append(facs, factory(sc, func(uri string) (*confmap.Retrieved, error) {
-			v, ok := table[uri]
-			if !ok {
-				return nil, fmt.Errorf("table has no %q", uri)
-			}
-			return confmap.NewRetrievedFromYAML([]byte(v))
-		}))
-	}
-	uris := []string{"src:0"}
-	if len(srcs) > 1 {
-		uris = append(uris, "src:1")
-	}
-	def := ""
-	if s.Default {
-		def = defaultScheme
-	}
-	o = resolve(uris, def, facs)
-	if o.panicV != nil || o.err != nil {
-		return o, tgt, nil, nil
-	}
-	upanic, _ = vt.Recover(func() { uerr = o.conf.Unmarshal(&tgt) })
-	return o, tgt, uerr, upanic
-}
-
-func runX(s XScript) (nontrivial bool, key string, f *vt.Finding) {
-	key = hashKey(s)
-	w := s.world()
-	var exps []expect
-	for _, fl := range s.effective() {
-		kind, ok := fieldKind[fl.Name]
-		if !ok {
-			w.discard = "unknown-field"
-			break
-		}
-		t, st, r := w.evalVal(fl.Val)
-		if r.Err == "" && r.TEx == "" {
-			// generator contract: scalar-typed fields are fed values of their own type
-			ok := true
-			switch kind {
-			case "int":
-				_, ok = t.(int)
-			case "bool":
-				_, ok = t.(bool)
-			case "float":
-				_, ok = t.(float64)
-			case "mapany":
-				_, ok = t.(map[string]any)
-			case "listany":
-				_, ok = t.([]any)
-			}
-			if !ok {
-				w.discard = "field-type-mismatch"
-			}
-		}
-		exps = append(exps, expect{fl.Name, kind, t, st, r})
-	}
-	if w.discard == "" && !s.bijective() {
-		w.discard = "not-bijective"
-	}
-	if w.discard != "" {
-		cX.Exclude("discard:" + w.discard)
-		return false, key, nil
-	}
-	if w.danger != "" && !vt.IsChild() {
-		// listed non-terminating shape: never run in-process
-		cX.Exclude(w.danger)
-		return false, key, nil
-	}
-	cX.HangGuard(10*time.Second, s, "hang/resolve", func() {
-		nontrivial, f = judgeX(&s, w, exps)
-	})
-	return nontrivial, key, f
-}
-
-func judgeX(s *XScript, w *world, exps []expect) (nontrivial bool, f *vt.Finding) {
-	probe := s.Probe != ""
-	o, tgt, uerr, upanic := s.execute()
-	if o.panicV != nil {
-		return false, vt.Failf("panic/resolve", "Resolve panicked: %v\n%s\n%v", o.panicV, short(o.stack, 1500), s.describe())
-	}
-	// --- classes
-	cls := []string{"default-scheme:" + fmt.Sprint(s.Default)}
-	for k := range w.cls {
-		if !strings.HasPrefix(k, "max-") {
-			cls = append(cls, k)
-		}
-	}
-	cls = append(cls, fmt.Sprintf("chain-depth:%d", w.cls["max-chain"]), fmt.Sprintf("splice-depth:%d", w.cls["max-splice-depth"]))
-	if len(s.Over) > 0 {
-		cls = append(cls, "two-sources")
-	}
-	definite, may := "", false
-	anyLeak := false
-	typedIntoString := false
-	for _, e := range exps {
-		if e.res.Err != "" && definite == "" {
-			definite = e.res.Err
-		}
-		may = may || e.res.ErrMay
-		anyLeak = anyLeak || e.res.Leak
-		if e.res.KnownA {
-			// the same reference text occurs unescaped and, later, escaped in one string (repaired finding F-C12-a)
-			cls = append(cls, "same-ref-unescaped-then-escaped")
-		}
-		for _, x := range []string{e.res.TEx, e.res.SEx} {
-			if x != "" {
-				cls = append(cls, "not-asserted:"+x)
-			}
-		}
-		if e.kind == "str" && e.res.Wrapped && e.res.Err == "" {
-			typedIntoString = true
-			cls = append(cls, "typed-into-string-field")
-		}
-		cls = append(cls, "field:"+e.kind)
-	}
-	sort.Strings(cls)
-	prev := ""
-	for _, c := range cls {
-		if c != prev {
-			cX.Class(c)
-		}
-		prev = c
-	}
-	nontrivial = (w.cls["embedded-ref"]+w.cls["whole-typed-scalar"]+w.cls["whole-struct"] > 0 && w.cls["seg:esc"]+w.cls["seg:escref"] > 0) ||
-		w.cls["nested-name"] > 0 || w.cls["max-chain"] >= 2 || w.cls["max-splice-depth"] >= 1 || typedIntoString
-
-	// --- errors
-	if o.err != nil {
-		switch {
-		case definite != "":
-			cX.Class("outcome:error:" + definite)
-			return nontrivial, nil
-		case may:
-			cX.Class("outcome:error-in-unasserted-context")
-			return false, nil
-		}
-		return nontrivial, vt.Failf("expand/unexpected-error", "Resolve failed with %q although every reference is resolvable: %v", o.err, s.describe())
-	}
-	if definite != "" {
-		return nontrivial, vt.Failf("expand/missing-error/"+definite, "Resolve succeeded although the configuration holds a %s reference; result %#v: %v", definite, o.tsm, s.describe())
-	}
-	cX.Class("outcome:resolved")
-
-	// --- ToStringMap view
-	if len(o.tsm) != len(exps) {
-		return nontrivial, vt.Failf("expand/tostringmap", "ToStringMap has %d keys, the configuration %d: %#v: %v", len(o.tsm), len(exps), o.tsm, s.describe())
-	}
-	for _, e := range exps {
-		got, ok := o.tsm[e.name]
-		if !ok {
-			return nontrivial, vt.Failf("expand/tostringmap", "key %q lost: %#v: %v", e.name, o.tsm, s.describe())
-		}
-		if e.res.Leak && !probe {
-			cX.Exclude("nested-expanded-value")
-			continue
-		}
-		if e.res.TEx != "" {
-			continue
-		}
-		if d := diffTree(e.typed, got, "/"+e.name); d != "" {
-			sig := "expand/tostringmap"
-			if probe && e.res.Leak && leaks(got, "") != "" {
-				sig = "nested-expanded-value/leak"
-			}
-			ff := vt.Failf(sig, "ToStringMap %s: %v", d, s.describe())
-			if !soft(cX, ff, *s) {
-				return nontrivial, ff
-			}
-		}
-	}
-
-	// --- Unmarshal view
-	if anyLeak && !probe {
-		return nontrivial, nil
-	}
-	if upanic != nil {
-		sig := "panic/unmarshal"
-		if probe && anyLeak {
-			sig = "nested-expanded-value/panic"
-		}
-		ff := vt.Failf(sig, "Unmarshal panicked: %v: %v", upanic, s.describe())
-		if !soft(cX, ff, *s) {
-			return nontrivial, ff
-		}
-		return nontrivial, nil
-	}
-	if uerr != nil {
-		for _, e := range exps {
-			// an unasserted typed field may hold anything; a typed value whose original text could not be
-			// expanded loses its text and cannot go into a string field
-			if (e.res.TEx != "" && e.kind != "str") || e.res.UErrMay {
-				cX.Class("outcome:unmarshal-error-in-unasserted-context")
-				return nontrivial, nil
-			}
-		}
-		return nontrivial, vt.Failf("expand/unmarshal-error", "Unmarshal failed: %v: %v", uerr, s.describe())
-	}
-	present := map[string]bool{}
-	tv := reflect.ValueOf(tgt)
-	for _, e := range exps {
-		present[e.name] = true
-		if e.res.Leak && !probe {
-			continue
-		}
-		got := fieldOf(tv, e.name)
-		var want any
-		skip := false
-		switch e.kind {
-		case "str":
-			want, skip = e.str, e.res.SEx != ""
-		case "int", "bool", "float", "mapany", "listany":
-			want, skip = e.typed, e.res.TEx != ""
-		case "mapstr", "liststr":
-			want, skip = e.str, e.res.SEx != ""
-		case "sub":
-			skip = e.res.SEx != "" || e.res.TEx != ""
-			tm, _ := e.typed.(map[string]any)
-			sm, _ := e.str.(map[string]any)
-			sub := map[string]any{"s": "", "i": 0, "l": nil}
-			if v, ok := sm["s"]; ok {
-				sub["s"] = v
-			}
-			if v, ok := tm["i"]; ok {
-				sub["i"] = v
-			}
-			if v, ok := tm["l"]; ok {
-				sub["l"] = v
-			}
-			want = sub
-		}
-		if skip {
-			continue
-		}
-		if d := diffTree(want, got, "/"+e.name); d != "" {
-			sig := "expand/unmarshal/" + e.kind
-			if probe && e.res.Leak {
-				sig = "nested-expanded-value/leak"
-			}
-			ff := vt.Failf(sig, "Unmarshal %s: %v", d, s.describe())
-			if !soft(cX, ff, *s) {
-				return nontrivial, ff
-			}
-		}
-	}
-	for name := range fieldKind {
-		if !present[name] {
-			if d := diffTree(zeroOf(name), fieldOf(tv, name), "/"+name); d != "" {
-				return nontrivial, vt.Failf("expand/unmarshal/absent", "absent key is not the zero value: %s: %v", d, s.describe())
-			}
-		}
-	}
-	return nontrivial, nil
 }
 
 func zeroOf(name string) any {
